@@ -66,6 +66,13 @@ def universe():
     return out
 
 
+def shifted(m):
+    """the same message with a dictionary as additional first argument"""
+    fields = [(n, getattr(m, n)) for n in ('path', 'interface', 'member', 'reply_serial', 'destination') if getattr(m, n, None) is not None]
+    raw = refwire.msg(m._messageType, m.serial, fields, 'a{ss}' + (m.signature or ''), [[('k', 'v')]] + list(m.body or []))
+    return message.parseMessage(raw, [])
+
+
 # names used by the model -> concrete DBus names
 CONC = {'I1': 'I1.x', 'I2': 'I2.x', 'D': 'D.x'}
 
@@ -268,6 +275,7 @@ def run(tier, seed):
     uni = universe()
     msgs = [model_msg(r) for r, _ in uni]
     reals = [m for _, m in uni]
+    reals_shifted = [shifted(m) for m in reals]
     # ---- generator: every rule of the universe against every message
     name = 'MC_Router_gen'
     cfg = ('SPECIFICATION SpecGen\nCONSTANTS\n MaxRules = 1\n'
@@ -309,6 +317,19 @@ def run(tier, seed):
             if hits:
                 got.add(i if len(hits) == 1 else -i)
         results = [('MessageRouter', got)]
+        if a or p:
+            # the same constraint on argument 1 of the same messages with a dictionary put in front: argument numbers count
+            # values (complete types), not signature characters
+            ro2 = router.MessageRouter()
+            hits2 = []
+            ro2.addMatch(hits2.append, args=[(1, v) for _, v in a] if a else None, arg_paths=[(1, v) for _, v in p] if p else None, **kw)
+            got2 = set()
+            for i, m in enumerate(reals_shifted, 1):
+                del hits2[:]
+                ro2.routeMessage(m)
+                if hits2:
+                    got2.add(i if len(hits2) == 1 else -i)
+            results.append(('MessageRouter, the constraint moved to argument 1 behind a dictionary', got2))
         # (b) the rule text the client sends, and (c) what the bus makes of that text
         chits = []
         # every other rule also names the emitter by its well-known name: that goes into the text for the daemon (which
